@@ -149,7 +149,7 @@ def run(ctx):
         seen = 0
         for node, st in d.at_enters:
             callee = node.info['callee']
-            if callee.parent is not d.g.root:
+            if callee.func is not ro or callee.parent is not d.g.root:
                 continue
             seen += 1
             g = lambda p: st.env.get(('L', callee.id, p))
@@ -223,6 +223,8 @@ def run(ctx):
         seen = 0
         for node, st in d.at_enters:
             callee = node.info['callee']
+            if callee.func is not ro:
+                continue
             a = st.env.get(('L', callee.id, p_alias))
             o = st.env.get(('L', callee.id, p_ord))
             seen += 1
